@@ -183,6 +183,21 @@ def run_case(drv, rng, stats):
             if leader not in anc:
                 fail("a rare value was merged into a group that is not one of its ancestors", value=leaf, leader=leader, ancestors=anc)
                 break
+            # merging stops at the first ancestor group that holds min_freq of the rows: rows flow from a value to its parent
+            # exactly when the value (with what flowed into it) is rarer than min_freq - by exact counting
+            children = {}
+            for c_, p_ in parents.items():
+                children.setdefault(p_, []).append(c_)
+
+            def eff(v, seen=()):
+                if v in seen:
+                    return 0
+                return cnt.get(v, 0) + sum(e for e in (eff(c_, seen + (v,)) for c_ in children.get(v, [])) if F(e, n) < F(carvecase.thr(mf)))
+            for a_ in anc[:anc.index(leader)]:
+                if F(eff(a_), n) >= F(carvecase.thr(mf)):
+                    fail("a rare value was merged further up than its first ancestor group holding min_freq of the rows",
+                         value=leaf, leader=leader, ancestor=a_, ancestor_share=float(F(eff(a_), n)))
+                    break
     # accumulated shares: an ancestor group rarer than min_freq is merged further up (unless it is a top)
     try:
         with warnings.catch_warnings():
